@@ -120,6 +120,10 @@ fn scenario(sc: &Sc, rep: &Report) -> Result<(), String> {
                     steps.push((false, Step::plain(&q, "simple", proto::query(&format!("SELECT 1 {}", tag(&cid, &q, &format!("sleep={}", rng.range(0, 8))))))));
                     let q = format!("{}.t{}.q3", cid, n);
                     steps.push((false, Step::plain(&q, "end", proto::query(&format!("COMMIT {}", tag(&cid, &q, ""))))));
+                } else if rng.chance(1, 5) {
+                    // a whole transaction that is one COPY ... FROM STDIN outside a block
+                    let q = format!("{}.t{}.q1", cid, n);
+                    steps.push((true, Step { qid: q.clone(), kind: crate::wl::StepKind::CopyIn { chunks: vec![b"1\n".to_vec(), b"2\n".to_vec()], fail: rng.chance(1, 3) }, bytes: proto::query(&format!("COPY t FROM STDIN {}", tag(&cid, &q, ""))), what: "copy_in".into(), readies: 1, cuts: vec![] }));
                 } else {
                     let q = format!("{}.t{}.q1", cid, n);
                     steps.push((true, Step::plain(&q, "simple", proto::query(&format!("SELECT 1 {}", tag(&cid, &q, &format!("sleep={}", rng.range(0, 3))))))));
